@@ -110,12 +110,12 @@ def expected_scale_rows(form, seed, n_idx, m):
     return s, rows
 
 
-class Exec:
-    def __init__(self):
-        self.ops = []
+class Exec(common.BaseExec):
+    PROP = "C14"
+
 
     def fail(self, cls, detail):
-        raise Violation(f"C14:{cls}:{self.space_kind}:{self.conf}:{self.model_kind}", detail, list(self.ops))
+        self.violation(f"C14:{cls}:{self.space_kind}:{self.conf}:{self.model_kind}", detail)
 
     # ------------------------------------------------------------------------------------
     def make_model(self, seed):
@@ -183,14 +183,11 @@ class Exec:
         return [O.snapshot_region(r) for r in self.ds.confidence_regions]
 
     # ------------------------------------------------------------------------------------
-    def apply(self, op):
+    def _apply(self, op):
         from vopy.design_space import AdaptivelyDiscretizedDesignSpace, FixedPointsDesignSpace
 
         from .. import oracles as O
 
-        self.ops.append(op)
-        REC.ops[op[0]] += 1
-        REC.steps += 1
         name = op[0]
         if name == "init":
             _, space_kind, conf, N, d, m, intersect, model_kind, seed = op
